@@ -26,6 +26,7 @@ RULE = ("seeded tables (C01 binary dtypes with raw cell bytes; C04 text dtypes) 
 TRUSTED = ["numpy fancy/slice indexing of the fully-read table and np.unique", "Python slice semantics (slice.indices via ndarray slicing)"]
 ASSUMPTIONS = ["positive slice steps; scalar rows within [-n, n); no empty row lists; single-element row lists are non-negative "
                "or below -n; no duplicate column names in a selection; a scalar column name is not combined with split=True"]
+THOROUGH_ROUNDS = 4      # the thorough tier runs the generator over this many derived seeds
 REQUIRED = {"quick": {"C02.rows": 4000, "C02.slice": 15000, "C02.columns": 1500, "C02.rowcol": 2500, "C02.reject": 300,
                       "C02.bin-vs-text": 400},
             "thorough": {"C02.rows": 60000, "C02.slice": 400000, "C02.columns": 25000, "C02.rowcol": 40000,
